@@ -9,7 +9,8 @@ from ..gen import fmt
 
 from octoprint_excluderegion.GcodeParser import GcodeParser
 
-ALPHABET = list("GMTNXYZEFSPgmtnxyze") + list("0123456789") * 2 + list("+-..  \t**;;\\\\(@") + ["\r", "\n", "\n", "\r\n", "é", "W", "w", ":", "✓", "温", "Ł", "𝄞"]
+ALPHABET = list("GMTNXYZEFSPgmtnxyze") + list("0123456789") * 2 + list("+-..  \t**;;\\\\(@") + ["\r", "\n", "\n", "\r\n", "é", "W", "w", ":", "✓", "温", "Ł", "𝄞"] + \
+    ["\x0b", "\x0c", "\xa0", "\x1c", "\x1f", "\x85", "\u2028", "\u3000"]      # what str.strip() removes, but the G-code grammar does not
 
 
 def rand_text(rnd, maxlen=60):
@@ -36,6 +37,8 @@ def structured_line(rnd):
     parts.append(ws())
     for _ in range(rnd.randint(0, 4)):
         w = rnd.choice("XYZEFSPxyze") + ws() + rnd.choice(["", "1", "-1.5", "+.5", "5.", "0010", "1e3", "\\;", "\\\\", "a b", "✓", "温度"])
+        if rnd.random() < 0.06:
+            w = rnd.choice(["\x0b", "\x0c", "\xa0", "\x85", "\u2028", "\t"]) + w if rnd.random() < 0.5 else w + rnd.choice(["\x0b", "\x0c", "\xa0", "\x1c", "\u2028"])
         parts.append(w + ws())
     if rnd.random() < 0.4:
         parts.append("*" + str(rnd.randint(0, 255)) + ws())
@@ -205,8 +208,9 @@ def gen_words(rnd, letters=LETTERS, n=None):
         if rnd.random() < 0.3:
             l = l.lower()
         v, s = spell_number(rnd)
-        inner = " " * rnd.choice([0, 0, 0, 1, 2]) if s else ""
-        text += " " * rnd.choice([0, 1, 1, 1, 2]) + l + inner + s
+        ws = "\t" if rnd.random() < 0.1 else " "       # RS274: a tab is as good as a blank, anywhere
+        inner = ws * rnd.choice([0, 0, 0, 1, 2]) if s else ""
+        text += ws * rnd.choice([0, 1, 1, 1, 2]) + l + inner + s
         out.append((l.upper(), v))
     return out, text + " " * rnd.choice([0, 0, 1])
 
@@ -219,7 +223,7 @@ def reference_read(param_text):
 class C19(Monitor):
     prop = "C19"
     quick_cases = 600
-    rule = ("word sequences over X Y Z E F I J R S P T in every legal spelling (case, 0-2 blanks between and inside words, signs, "
+    rule = ("word sequences over X Y Z E F I J R S P T in every legal spelling (case, 0-2 blanks or tabs between and inside words, signs, "
             ".5, 5., leading zeros, trailing zeros, repeated letters, valueless flags), no exponents; (a) real parameterItems() "
             "restricted to letter-named items vs an independent reader and vs the generator's intended list; (b) through the real "
             "handlers: tracked position after G0/G1, G92 E, G28 and absolute G2/G3 vs the reference printer, which uses the LAST "
